@@ -20,6 +20,11 @@ V_RULES = '''[Big]
 filter: total > 10
 '''
 G_IGNORE = '# mine\n*.secret\n'
+# the user's merchants.rules without a single [rule] section: still their file (get_all_rules loads nothing from it)
+E_RULES = '''# my rules - sections still to be written
+big = amount > 100
+field.description = regex_replace(field.description, "^APLPAY\\\\s+", "")
+'''
 OLD_REPORT = '<html>report I kept</html>\n'
 BASES = {'user': c15.SETTINGS_PLAIN, 'userref': c15.SETTINGS_REF}
 
@@ -57,6 +62,8 @@ def concretise(fs, prefix=''):
         t[cfg + 'merchant_categories.csv.bak'] = c15.B_BAK
     if fs['rules'] == 'U':
         t[cfg + 'merchants.rules'] = c15.U_RULES
+    if fs['rules'] == 'E':
+        t[cfg + 'merchants.rules'] = E_RULES
     if fs['views'] == 'V':
         t[cfg + 'views.rules'] = V_RULES
     if fs['data'] == 'D':
@@ -115,13 +122,15 @@ def abstract(snap, st, prefix=''):
         out['rules'] = 'absent'
     elif rules == c15.U_RULES:
         out['rules'] = 'U'
+    elif rules == E_RULES:
+        out['rules'] = 'E'
     elif rules == st['rules']:
         out['rules'] = 'starter'
     elif rules.startswith('# Tally Merchant Rules\n# Migrated from merchant_categories.csv'):
         out['rules'] = 'M'
     else:
         out['rules'] = 'other'
-    out['rulesbak'] = cls(cfg + 'merchants.rules.bak', {'U': c15.U_RULES, 'starter': st['rules']})
+    out['rulesbak'] = cls(cfg + 'merchants.rules.bak', {'U': c15.U_RULES, 'E': E_RULES, 'starter': st['rules']})
     out['views'] = cls(cfg + 'views.rules', {'V': V_RULES, 'starter': st['views']})
     out['data'] = cls(prefix + 'data/card.csv', {'D': c15.DATA})
     out['gitignore'] = cls(prefix + '.gitignore', {'G': G_IGNORE, 'starter': st['gitignore']})
@@ -240,7 +249,7 @@ def run(ck):
     for k in range(150 if quick else 3000):
         fs0 = {'settings': {'base': rnd.choice(['absent', 'user', 'user', 'userref']), 'app': []},
                'csv': rnd.choice(['absent', 'R', 'R']), 'csvbak': rnd.choice(['absent', 'absent', 'B']), 'csvbak1': 'absent',
-               'rules': rnd.choice(['absent', 'U']), 'rulesbak': 'absent', 'views': rnd.choice(['absent', 'V']),
+               'rules': rnd.choice(['absent', 'U', 'E']), 'rulesbak': 'absent', 'views': rnd.choice(['absent', 'V']),
                'data': rnd.choice(['absent', 'D', 'D']), 'gitignore': rnd.choice(['absent', 'G']),
                'report': rnd.choice(['absent', 'old'])}
         cmds = [rnd.choice(['init', 'up_migrate', 'up_html', 'up_html'] + list(CMD_ARGS)) for _ in range(rnd.randint(1, 5))]
